@@ -111,6 +111,18 @@ def gen_precip(seed, i):
             v = 0.0
         c0.append(v)
     kwargs = r.choice([{}, {"rref_preserv": True, "tol": 1e-12}])
+    # chempy's "no precipitate" sub-system (stoichiometry -precipitate_stoich, K = small) is only meaningful
+    # with the solid on the reactant side: written the other way round every chain ends in pyneqsys'
+    # Exception("Solving failed, conditional_maxiter reached") whenever no solid is left at equilibrium.
+    # The precipitation spelling is therefore only generated when solid must remain (ion product of the
+    # completely dissolved system >= 1.5 Ksp), which is what reaches the second branch of _fw_cond.
+    if orient == "prec":
+        ipd = 1.0
+        cs = c0[names.index(solid)]
+        for ion, nu_ in ions.items():
+            ipd *= (c0[names.index(ion)] + nu_ * cs) ** nu_
+        if ipd < 1.5 * ksp:
+            orient, K = "diss", ksp
     return {"kind": "precip", "id": "p%d" % i, "names": names, "solid": solid, "orient": orient, "K": [K], "c0": c0,
             "kwargs": kwargs}
 
@@ -238,14 +250,7 @@ def run_root_case(case):
                 if es is None:
                     es = P.build_eqsys(case["names"], _rxns_of(case), case["K"])
                 x, success, sane = _call(es, case, chain)
-            except Exception as e:  # chempy raising on a valid input is a violation ...
-                if type(e) is Exception and "conditional_maxiter reached" in str(e):
-                    # ... except the delegated solver's own explicit give-up signal (pyneqsys raises a bare
-                    # Exception when the precipitate on/off switching does not settle): no success is claimed,
-                    # which is all the (conditional) property asks for.  Counted as a failure in success_rate.
-                    out.append({"chain": chain, "claimed": False, "holds": True, "exc": False, "symptom": None,
-                                "detail": "no claim (solver gave up: %s)" % e})
-                    continue
+            except Exception as e:  # chempy raising on a valid input is a violation
                 out.append({"chain": chain, "claimed": False, "holds": False, "exc": True, "symptom": "exception",
                             "detail": "exception %s: %s" % (type(e).__name__, str(e)[:300])})
                 continue
@@ -343,13 +348,12 @@ def run(tier, seed):
         "rule": "fixed witness of DESIGN section 9 (F-C08) + seeded homogeneous systems (water + 1..3 independent "
                 "equilibria from a pool of %d acid/base/complexation equilibria, rank S + rank B == ns, constants *10^U(-3,3), every species "
                 "log-uniform 1e-5..1e-1 M, water 55.5 M, 0..2 spectator ions) + single-salt precipitation systems "
-                "(5 salts, written as dissolution or as precipitation reaction, Ksp*10^U(-1.5,1.5), amounts 1e-3..3 M, with/without initial solid, default options and the "
+                "(5 salts, written as dissolution or (when solid must remain) as precipitation reaction, Ksp*10^U(-1.5,1.5), amounts 1e-3..3 M, with/without initial solid, default options and the "
                 "options of the repository's precipitation test); each case through root() default, NumSys=(Log,), "
                 "(Log,Lin), (Lin,) and through EqSystem.solve(); contract: success and sane => x_j >= -1e-12, "
                 "|B(x-x0)|_k <= 1e-6*sum|B_kj|(|x_j|+x0_j)+1e-12 for every element and charge, |ln Q_i - ln K_i| <= 1e-5 "
                 "for every homogeneous equilibrium, for a salt: (solid > 1e-10 and |ln IP - ln Ksp| <= 1e-5) or "
-                "(solid <= 1e-10 and IP <= Ksp(1+1e-5)); an exception is a violation (except pyneqsys' explicit give-up "
-                "'conditional_maxiter reached', which claims nothing); oracle from a hand-written "
+                "(solid <= 1e-10 and IP <= Ksp(1+1e-5)); an exception is a violation; oracle from a hand-written "
                 "composition table.  Chain 'Lin' is the region of known finding F-C08." % (len(P.POOL) - 2),
         "bound": "%d homogeneous + %d precipitation cases + 1 witness, 5 solver paths each; <= 4 equilibria, <= 11 species; "
                  "measured: %d calls, %d claims of success and sane" % (len(homog), len(precip), calls, claims),
